@@ -42,7 +42,7 @@ func runC14(c *Ctx) {
 	}
 
 	if f := c.fn("buffer-table", "queueing", "Buffer", "CanPush"); f != nil {
-		t := ExtractTable(p, f, TableConfig{Domain: dom})
+		t := ExtractTable(p, f, TableConfig{Domain: dom, Inline: portHelper(p)})
 		CheckTable(c, "buffer-table", "queueing.Buffer.CanPush", p.Decl(f).Pos(), t, roles, dom, feasible, func(v RoleVals, r *Row) (bool, string) {
 			if r.Out.Kind != "return" || len(r.Out.Vals) != 1 || r.Out.Vals[0].Kind != vBool || r.Out.Vals[0].B != (v["len"] < v["cap"]) {
 				return false, "CanPush must be exactly len < cap"
@@ -51,7 +51,7 @@ func runC14(c *Ctx) {
 		})
 	}
 	if f := c.fn("buffer-table", "queueing", "Buffer", "PushTyped"); f != nil {
-		t := ExtractTable(p, f, TableConfig{Domain: dom})
+		t := ExtractTable(p, f, TableConfig{Domain: dom, Inline: portHelper(p)})
 		e0 := param(f, 0)
 		CheckTable(c, "buffer-table", "queueing.Buffer.PushTyped", p.Decl(f).Pos(), t, roles, dom, feasible, func(v RoleVals, r *Row) (bool, string) {
 			st := storesToElems(r)
@@ -76,7 +76,7 @@ func runC14(c *Ctx) {
 		if f == nil {
 			continue
 		}
-		t := ExtractTable(p, f, TableConfig{Domain: dom})
+		t := ExtractTable(p, f, TableConfig{Domain: dom, Inline: portHelper(p)})
 		CheckTable(c, "buffer-table", "queueing.Buffer."+name, p.Decl(f).Pos(), t, roles[:1], dom, nil, func(v RoleVals, r *Row) (bool, string) {
 			st := storesToElems(r)
 			if r.Out.Kind != "return" || len(r.Out.Vals) != 1 {
@@ -108,7 +108,7 @@ func runC14(c *Ctx) {
 		})
 	}
 	if f := c.fn("buffer-table", "queueing", "Buffer", "UpdateFront"); f != nil {
-		t := ExtractTable(p, f, TableConfig{Domain: dom})
+		t := ExtractTable(p, f, TableConfig{Domain: dom, Inline: portHelper(p)})
 		e0 := param(f, 0)
 		CheckTable(c, "buffer-table", "queueing.Buffer.UpdateFront", p.Decl(f).Pos(), t, roles[:1], dom, nil, func(v RoleVals, r *Row) (bool, string) {
 			st := storesToElems(r)
@@ -125,7 +125,7 @@ func runC14(c *Ctx) {
 		})
 	}
 	if f := c.fn("buffer-table", "queueing", "Buffer", "Restore"); f != nil {
-		t := ExtractTable(p, f, TableConfig{Domain: dom})
+		t := ExtractTable(p, f, TableConfig{Domain: dom, Inline: portHelper(p)})
 		e0 := param(f, 0)
 		rr := []Role{{Name: "n", Match: func(a *Atom) bool { return a.Has(e0) && a.HasLenOf() }}, roles[1]}
 		CheckTable(c, "buffer-table", "queueing.Buffer.Restore", p.Decl(f).Pos(), t, rr, dom, nil, func(v RoleVals, r *Row) (bool, string) {
@@ -150,7 +150,7 @@ func runC14(c *Ctx) {
 		})
 	}
 	if f := c.fn("buffer-table", "queueing", "Buffer", "Clear"); f != nil {
-		t := ExtractTable(p, f, TableConfig{Domain: dom})
+		t := ExtractTable(p, f, TableConfig{Domain: dom, Inline: portHelper(p)})
 		ok := len(t.Rows) > 0 && len(t.Unsupported) == 0
 		for _, r := range t.Rows {
 			st := storesToElems(r)
@@ -165,7 +165,7 @@ func runC14(c *Ctx) {
 		if f == nil {
 			continue
 		}
-		t := ExtractTable(p, f, TableConfig{Domain: dom})
+		t := ExtractTable(p, f, TableConfig{Domain: dom, Inline: portHelper(p)})
 		ok := len(t.Rows) > 0 && len(t.Unsupported) == 0
 		for _, r := range t.Rows {
 			if r.Out.Kind != "return" || len(r.Out.Vals) != 1 {
@@ -304,7 +304,7 @@ func runC11(c *Ctx) {
 			continue
 		}
 		msg := f.Type().(*types.Signature).Params().At(0)
-		t := ExtractTable(p, f, TableConfig{Domain: dom})
+		t := ExtractTable(p, f, TableConfig{Domain: dom, Inline: portHelper(p)})
 		roles := []Role{
 			{Name: "can", IsBool: true, Match: func(a *Atom) bool { return a.HasName("CanPush") && a.Has(o.buf) }},
 			{Name: "size", Match: func(a *Atom) bool { return (a.HasName("Size") || a.HasName("NumIncoming") || a.HasName("NumOutgoing")) && a.Has(o.buf) }},
@@ -352,7 +352,7 @@ func runC11(c *Ctx) {
 		if f == nil {
 			continue
 		}
-		t := ExtractTable(p, f, TableConfig{Domain: dom})
+		t := ExtractTable(p, f, TableConfig{Domain: dom, Inline: portHelper(p)})
 		roles := []Role{
 			{Name: "empty", IsBool: true, Match: func(a *Atom) bool { return strings.Contains(a.Key, "nil ==") && a.HasName("Pop") && a.Has(o.buf) }},
 			{Name: "after", Match: func(a *Atom) bool { return a.HasName("Size") && a.Has(o.buf) }},
@@ -418,7 +418,7 @@ func runC11(c *Ctx) {
 		if f == nil {
 			continue
 		}
-		t := ExtractTable(p, f, TableConfig{Domain: dom})
+		t := ExtractTable(p, f, TableConfig{Domain: dom, Inline: portHelper(p)})
 		ok := len(t.Rows) > 0 && len(t.Unsupported) == 0
 		for _, r := range t.Rows {
 			if r.Out.Kind != "return" || len(r.Out.Vals) != 1 {
@@ -462,4 +462,19 @@ func runC11(c *Ctx) {
 		}
 	}
 	c.Floor("port-buffer-access", 10)
+}
+
+// portHelper inlines the port's own unexported helper methods (a condition moved
+// into a helper must be read through).
+func portHelper(p *Program) func(*types.Func) bool {
+	return func(g *types.Func) bool {
+		if g.Pkg() == nil || g.Pkg().Path() != pkgPath("messaging") || ast.IsExported(g.Name()) {
+			return false
+		}
+		sig, _ := g.Type().(*types.Signature)
+		if sig == nil || sig.Recv() == nil || !strings.Contains(sig.Recv().Type().String(), "defaultPort") {
+			return false
+		}
+		return p.Decl(g) != nil
+	}
 }
